@@ -9,7 +9,7 @@
 import PacketVerif.Gen.DhcpFileGen
 import PacketVerif.Lemmas.DhcpFileTie
 namespace PV.Props.C18FileTie
-open PV PV.Model.Dhcp4Srv PV.Model.Dhcp4File PV.Model.DhcpFileGo PV.Gen.DhcpFile PV.Lemmas.DhcpFileTie
+open PV PV.Model.Dhcp4Srv PV.Model.Dhcp4File PV.Model.Dhcp4Restart PV.Model.DhcpFileGo PV.Gen.DhcpFile PV.Lemmas.DhcpFileTie
 
 def reviewedTranslated : List String := [
   "newSubnet",
@@ -146,5 +146,49 @@ theorem saveConfig_writes (env : Env) (fs : List FsOp) (n1 n2 : SubRec) (t : Tab
     saveSpec env fs n1 n2 t fname =
       .ok (false, fs ++ [.writeFile (fname ++ ".tmp") (sealFile env.hash stream), .rename (fname ++ ".tmp") fname]) := by
   simp [saveSpec, hf, he, hio]
+
+/-- **`Config.New`** for the configuration `n` (any mode integer, any lease file name, any file system / codec / capture
+    predicate): rejected exactly when `NewCfg.accepted` is false (netfilter address outside the home LAN, or a netfilter
+    prefix shorter than the home prefix); otherwise the handler is `handlerOf` of what `Model.Dhcp4File.loadFile` builds from
+    the lease file under the expectations `homeExp n` / `nfExp n` of `Model/Dhcp4Restart` (missing / unreadable / damaged /
+    undecodable file, a missing section, a `newSubnet` error or a changed configuration → reset to the two fresh subnets and
+    an empty table; else the loaded subnets and table) — mode defaulted to 3 (nice) unless 1, 2, 3; DNS defaulted to the
+    router; route options appended to net2 — and the lease file is written once, at the end (`saveSpec`). -/
+theorem New_tie (env : Env) (fs : List FsOp) (n : NewCfg) (modeI : Int) (fname : String) (hn : WFNew n)
+    (hwf : ∀ y d, env.dec y = some d → WFFile d) :
+    Config_New env fs (cfgOf n modeI fname) (nicOf n) = newSpec env fs n modeI fname :=
+  PV.Lemmas.DhcpFileTie.New_tie env fs n modeI fname hn hwf
+
+/-- the validation of the netfilter prefix is C12's `accepted` -/
+theorem New_rejects (env : Env) (fs : List FsOp) (n : NewCfg) (modeI : Int) (fname : String) (hn : WFNew n)
+    (hwf : ∀ y d, env.dec y = some d → WFFile d) (h : n.accepted = false) :
+    Config_New env fs (cfgOf n modeI fname) (nicOf n) = .err .other := by
+  rw [New_tie env fs n modeI fname hn hwf]; simp [newSpec, h]
+
+/-- without a lease file name: the two subnets are `newSubnet` of the expectations (the server model's `mkCfg n`, see
+    `C18Restart.news_lsubs`), the table is empty, nothing is written -/
+theorem New_fresh (env : Env) (fs : List FsOp) (n : NewCfg) (modeI : Int) (hn : WFNew n)
+    (hwf : ∀ y d, env.dec y = some d → WFFile d) (h : n.accepted = true) (n1 n2 : LSub)
+    (h1 : Model.Dhcp4File.newSubnet (expectedRec (homeExp n)) = .ok n1)
+    (h2 : Model.Dhcp4File.newSubnet (expectedRec (nfExp n)) = .ok n2) :
+    Config_New env fs (cfgOf n modeI "") (nicOf n) = .ok (handlerOf modeI "" { net1 := n1, net2 := n2, table := [] }, fs) := by
+  rw [New_tie env fs n modeI "" hn hwf]
+  simp [newSpec, h, loadFile, construct, h1, h2, saveSpec]
+
+/-! ### the regenerated code runs (non-vacuity) -/
+
+def homeEx : SubRec := { lan := .v4 3232235610 24, gw := .v4 3232235521, server := .v4 3232235530, dns := .v4 3232235521, first := .invalid, dur := 0, stage := 1 }
+/-- the regenerated `newSubnet` runs: 192.168.0.90/24 → network .0, broadcast .255, first address .1, four hours -/
+example : (match Gen.DhcpFile.newSubnet homeEx with
+           | .ok g => decide ((g.cfg.lan, g.broadcast, g.nextIP, g.cfg.dur) = (.v4 3232235520 24, .v4 3232235775, .v4 3232235521, 14400))
+           | _ => false) = true := by decide
+example : Gen.DhcpFile.newSubnet { homeEx with gw := .v4 1 } = .err .other := by decide
+example : Gen.DhcpFile.newSubnet { homeEx with lan := .v6 } = .err .other := by decide
+def envEx : Env := { captured := fun m => m == [2], dec := fun _ => none, enc := fun _ => some [1], hash := ⟨fun _ => List.replicate 32 0, fun _ => by simp⟩, readFile := fun _ => none, ioFails := fun _ => false }
+def nEx : NewCfg := { mode := .nice, host := 3232235530, router := 3232235521, homeLan := 3232235520, homeBits := 24, nfAddr := 3232235649, nfBits := 25, dns := none }
+example : (match Config_New envEx [] (cfgOf nEx 0 "f") (nicOf nEx) with
+           | .ok (h, fs) => decide (h.mode = 3 ∧ h.table = some [] ∧ fs.length = 2 ∧ (h.net2.map (·.broadcast)) = some (.v4 3232235775))
+           | _ => false) = true := by decide
+example : Config_New envEx [] (cfgOf { nEx with nfBits := 16 } 0 "f") (nicOf { nEx with nfBits := 16 }) = .err .other := by decide
 
 end PV.Props.C18FileTie
